@@ -174,7 +174,7 @@ struct Sess {
     pos: usize,
 }
 
-fn cut_plan(len: usize, frame_ends: &[usize]) -> Vec<usize> {
+pub fn cut_plan(len: usize, frame_ends: &[usize]) -> Vec<usize> {
     // returns ascending cut offsets ending with len
     let mut cuts = Vec::new();
     match weighted(&[3, 3, 3, 1, 1]) {
